@@ -148,10 +148,9 @@ package corebgp
 //@   local ErrServerClosed #0 error
 //@   local peer #0 *peer
 //@   requires serverObj(s) && !locked(s.mu) && (chanClosed(s.closeCh) == onceDone(s.closeOnce))
-//@   requires [fresh_or_finished] chanClosed(s.doneServingCh) || !s.serving
 // (life cycle of the registry: until the server has served or been closed, no registered peer has
 // been started; a Server that has finished serving holds stopped peers and must refuse to serve)
-//@   requires [peers_unstarted_until_served] !chanClosed(s.doneServingCh) && !chanClosed(s.closeCh) ==> (forall k :: has(s.peers, k) ==> s.peers[k] != nil && peerStartable(s.peers[k]))
+//@   requires [peers_unstarted_until_served] !s.serving && !chanClosed(s.doneServingCh) && !chanClosed(s.closeCh) ==> (forall k :: has(s.peers, k) ==> s.peers[k] != nil && peerStartable(s.peers[k]))
 //@   requires [peers_distinct] stoppablePeers(s)
 //@   requires [listeners] forall i :: 0 <= i && i < len(listeners) ==> listeners[i] != nil
 //@   ghostvar refused bool = false
@@ -164,8 +163,55 @@ package corebgp
 //@   ensures [closed_server_refuses] old(chanClosed(s.doneServingCh) || chanClosed(s.closeCh)) ==> refused && err == ErrServerClosed && s.serving == old(s.serving)
 //@   ensures [always_an_error] err != nil
 //@   ensures [lock_released] !locked(s.mu)
-//@   ensures [not_serving_afterwards] !refused ==> !s.serving && chanClosed(s.doneServingCh)
+//@   ensures [not_serving_afterwards] !refused && !old(s.serving) ==> !s.serving && chanClosed(s.doneServingCh)
+//@   ensures [second_serve_is_refused_without_effect] !refused && old(s.serving) ==> s.serving && chanClosed(s.doneServingCh) == old(chanClosed(s.doneServingCh))
 
 //@ func funcPeerOption.apply (f, p)
 //@   requires f.fn != nil
 //@   modifies *p
+
+// ---- option plumbing (C06 C11 C13 C20): each With* option sets exactly its own field ----
+//@ pure optsSameExcept(o, xh, xi, xc, xp, xv, xl) = (xh || o.holdTime == old(o.holdTime)) && (xi || o.idleHoldTime == old(o.idleHoldTime)) && (xc || o.connectRetryTime == old(o.connectRetryTime)) && (xp || o.port == old(o.port)) && (xv || o.passive == old(o.passive)) && (xl || o.localAddress == old(o.localAddress))
+
+//@ func defaultPeerOptions () returns (r)
+//@   ensures [defaults] r.holdTime == 90000000000 && r.idleHoldTime == 5000000000 && r.connectRetryTime == 5000000000 && r.port == 179 && !r.passive && !addrIsValid(r.localAddress)
+
+//@ func WithPassive$1 (o)
+//@   requires o != nil
+//@   modifies *o
+//@   ensures [sets_passive_only] o.passive && optsSameExcept(o, false, false, false, false, true, false)
+
+//@ func WithIdleHoldTime$1 (o)
+//@   local t #0 time.Duration
+//@   requires o != nil
+//@   modifies *o
+//@   ensures [sets_idle_hold_time_only] o.idleHoldTime == t && optsSameExcept(o, false, true, false, false, false, false)
+
+//@ func WithConnectRetryTime$1 (o)
+//@   local t #0 time.Duration
+//@   requires o != nil
+//@   modifies *o
+//@   ensures [sets_connect_retry_time_only] o.connectRetryTime == t && optsSameExcept(o, false, false, true, false, false, false)
+
+//@ func WithPort$1 (o)
+//@   local p #0 int
+//@   requires o != nil
+//@   modifies *o
+//@   ensures [sets_port_only] o.port == p && optsSameExcept(o, false, false, false, true, false, false)
+
+//@ func WithLocalAddress$1 (o)
+//@   local localAddress #0 netip.Addr
+//@   requires o != nil
+//@   modifies *o
+//@   ensures [sets_local_address_only] o.localAddress == localAddress && optsSameExcept(o, false, false, false, false, false, true)
+
+//@ func WithHoldTime$1 (o)
+//@   local seconds #0 uint16
+//@   requires o != nil
+//@   modifies *o
+//@   ensures [sets_hold_time_only] o.holdTime == seconds * 1000000000 && optsSameExcept(o, true, false, false, false, false, false)
+
+//@ func WithDialerControl$1 (o)
+//@   requires o != nil
+//@   modifies *o
+//@   ensures [leaves_the_other_options] optsSameExcept(o, false, false, false, false, false, false)
